@@ -118,6 +118,15 @@ CLAIMED = {
              "every n = 0..25 and every index -1..n+1 and recovers the rows from the rendered table; live MAX_ROWS/HEAD_ROWS are "
              "compared with the model's constants.",
         design="§7 C19", technique="Lean 4 proof (list lemmas) + exhaustive-range correspondence through click's CliRunner"),
+    "C20": dict(
+        text="raw_default / raw_kept / raw_falsy_examples (the raw value defaults to the value exactly when none is given — also "
+             "for 0, False, empty — and a given raw value is carried unchanged even when falsy), value_copy / packet_copy / "
+             "copy_idempotent (reconstruction from the reduced form gives back values and whole packets: items, order, raw bytes, "
+             "cursor). PARTIAL: that a parameter object compares, hashes, orders, formats and computes exactly like the built-in "
+             "is Python object-model semantics, true of a value model by definition; it is decided by the correspondence harness "
+             "alone (a table of ~60 operations on parameter vs plain value for all five classes, plus copy/deepcopy/pickle 0-5 on "
+             "real values and packets).",
+        design="§7 C20", technique="Lean 4 proof (reconstruction protocol model) + operation-table correspondence on the real classes"),
 }
 
 NOT_YET = "check not built yet (work in progress; see DESIGN.md §11 build order)"
